@@ -303,6 +303,12 @@ inline void storage_sequences(const vf::opts &o, vf::report &R, uint64_t seqs) {
                 if (r.chance(1, 2)) *a = std::move(*b); else *b = std::move(*a);  // move assignment over an object that owns a block
                 { cocls::future<int> f = st_start(*a, C, 4, nullptr, (int)r.below(ST_NSIZES)); if (f.wait() != 4) res.err = "wrong value"; }
                 { cocls::future<int> f = st_start(*b, C, 5, nullptr, (int)r.below(ST_NSIZES)); if (f.wait() != 5) res.err = "wrong value"; }
+                if (r.chance(1, 3)) { // self move assignment (compaction loops do v[w++] = std::move(v[i]) with w == i): the object must stay usable
+                    auto &sa = *a; *a = std::move(sa);
+                    { cocls::future<int> f = st_start(*a, C, 6, nullptr, (int)r.below(ST_NSIZES)); if (f.wait() != 6) res.err = "wrong value"; }
+                    { cocls::future<int> f = st_start(*a, C, 7, nullptr, (int)r.below(ST_NSIZES)); if (f.wait() != 7) res.err = "wrong value"; }
+                    res.desc += " + self move assignment";
+                }
                 if (r.chance(1, 2)) a.reset(); else b.reset();
                 if (res.err.empty() && C.canary_bad.load()) res.err = "frame contents overwritten after the storage object was moved";
                 res.desc += " + move-construct / move-assign of the storage object";
